@@ -285,6 +285,18 @@ func c02RunFamily(rep *report.Report, key string, ids []string, cases []c02Case,
 				}
 				return errSkip
 			})
+			// the same on committed pages, in a read transaction (quick: families of at most one sort field)
+			if !thorough && len(fields) > 1 {
+				goto next
+			}
+			if err := w.committed(ds, func(tx *bbolt.Tx) {
+				for _, p := range parsed {
+					c02Check(rep, w, tx, ds, p.c, p.q, label+"[committed] ", allProvider, false)
+				}
+			}); err != nil {
+				rep.Violation("C02|materialise-committed|"+label, err.Error(), nil)
+			}
+		next:
 		}
 		dsNo++
 		k := n - 1
